@@ -460,6 +460,11 @@ def modular_call(I, c, args, kw, st, node):
         raise ToolLimit("modular call %s: %d args for %d params (signature or call site changed)" % (c.name, len(bound), len(pnames)))
     for g, ty in c.ghost.items():
         bound[g] = I.make_input(st, g, ty, writable=False)
+    if c.trusted:
+        # an ASSUMED contract: what is taken from it without proof is listed in the evidence of every check that uses it
+        note = "ASSUMED (trusted) contract of %s used by %s without proof: %s" % (c.name, I.ctx.contract.name, "; ".join("%s: %s" % (e, t) for e, t in c.ensures) or "frame only") + ((" [%s]" % c.note[:260]) if c.note else "")
+        if note not in I.ctx.tool_notes:
+            I.ctx.tool_notes.append(note)
     # evaluate requires in callee scope over the caller's heap
     cs = st.copy()
     cs.locals = dict(bound)
